@@ -147,6 +147,7 @@ func fragFilter(g *Gen, n int, o *Out) {
 			}
 		}
 	}
+	filterHistory(g, o, n/4+5)
 	for i := 0; i < n; i++ {
 		data := containerFor(g)
 		v := reflect.ValueOf(data)
@@ -674,8 +675,26 @@ func fragDet(g *Gen, n int, o *Out) {
 					ml[k], mp[k], ms[MyStr(k)] = []int{2, 5, 7}, &pn{1}, ""
 				}
 			}
-			tdatum := map[string]interface{}{"ml": ml, "mp": mp, "ms": ms}
+			// maps whose key type is not string (int, bool, float, named int keys; interface keys holding
+			// ints): today an error; whatever the library does with them, it must do the same every time
+			mi, mb, mf, mn, mx := map[int]interface{}{}, map[bool]interface{}{}, map[float64]interface{}{}, map[MyInt]interface{}{}, map[interface{}]interface{}{}
+			for j, k := range keys {
+				var v interface{} = "open"
+				switch g.r.Intn(3) {
+				case 0:
+					v = 7
+				case 1:
+					v = map[string]interface{}{"x": 1}
+				}
+				mi[j], mf[float64(j)/2], mn[MyInt(j)], mx[j] = v, v, v, v
+				mb[j%2 == 0] = v
+				_ = k
+			}
+			tdatum := map[string]interface{}{"ml": ml, "mp": mp, "ms": ms, "mi": mi, "mb": mb, "mf": mf, "mn": mn, "mx": mx}
 			texts := []string{
+				fmt.Sprintf("%s mi as k, v { v == \"open\" }", c.Op),
+				fmt.Sprintf("%s %s as _, v { v == \"open\" }", c.Op, []string{"mb", "mf", "mn", "mx"}[g.r.Intn(4)]),
+				fmt.Sprintf("%s mi as k { k == 1 }", c.Op),
 				fmt.Sprintf("%s ml as k, v { v.1 == %d }", c.Op, g.r.Intn(3)),
 				fmt.Sprintf("%s mp as _, v { v.N != 0 }", c.Op),
 				fmt.Sprintf("%s ms as k, v { v == \"yes\" or Missing == 1 }", c.Op),
